@@ -1,6 +1,7 @@
 import Driver.Sexp
 import Pcore.Model.Ser
 import Pcore.Model.SerSpec
+import Pcore.Generated.SerArms
 /-! Driver op for C10:  `ser <opts> <caps> <val>` (syntax in harness/c10/c10.go). -/
 namespace C10
 open Sx Pcore.Ser
@@ -39,6 +40,7 @@ partial def parseV (ps : PS) : Sexp → Option (V × PS)
     let kd ← kindOf k
     let e ← enc.str?
     let d ← disp.str?
+    if !canonLeaf kd e then none      -- e.g. a Timespan payload that is not the default format of a duration
     let v := V.leaf id kd e d
     some (v, { ps with defined := (id, v) :: ps.defined })
   | .list [.atom "sn", i, x] => do
@@ -63,6 +65,19 @@ partial def parseV (ps : PS) : Sexp → Option (V × PS)
     let (ws, ps1) ← parseAttrs { ps with opened := id :: ps.opened } xs
     let v := V.obj id t d ws
     some (v, { defined := (id, v) :: ps1.defined, opened := ps.opened })
+  | .list [.atom "tdef", i, _text, disp, init] => do
+    -- a type definition no loader knows: an instance of Pcore::ObjectType whose init hash is given (own identities)
+    let id ← freshId ps i
+    let d ← disp.str?
+    let (h, _) ← parseV { defined := [], opened := [] } init
+    match h with
+    | .hash _ es =>
+      let as ← es.mapM fun (kv : V × V) => match kv.1 with
+        | .str k => some (k, kv.2)
+        | _ => none
+      let v := V.obj id "Pcore::ObjectType" d as
+      some (v, { ps with defined := (id, v) :: ps.defined })
+    | _ => none
   | .list [.atom "=", i] => do
     let n ← i.nat?
     let v ← ps.defined.lookup n
@@ -118,62 +133,69 @@ partial def evStr : Ev → String
   | .arr es => "(a" ++ String.join (es.map fun e => " " ++ evStr e) ++ ")"
   | .hsh es => "(h" ++ String.join (es.map fun e => " " ++ evStr e) ++ ")"
 
-/-- print a value with identities renumbered by first occurrence (pre-order); `m` maps model ids to printed ids -/
-partial def valStr (m : List (Nat × Nat)) : V → String × List (Nat × Nat)
+/-- print a value with identities renumbered by first occurrence (pre-order); `m` maps model ids to printed ids.
+    Inside a type definition (`anon`) nothing is printed with an identity (`-`): the Go side prints a type from an
+    init hash that is rebuilt on every call. -/
+partial def valStr (anon : Bool) (m : List (Nat × Nat)) : V → String × List (Nat × Nat)
   | .undef => ("(u)", m) | .dflt => ("(df)", m)
   | .bool b => (s!"(b {boolStr b})", m) | .int i => (s!"(i {i})", m) | .flt f => (s!"(f {f})", m)
   | .str s => (s!"(s {hexOfString s})", m)
   | .bin _ bs => ("(x x" ++ hexOfBytes bs ++ ")", m)
   | .leaf id k enc _ =>
-    if k.byContent then (s!"(l - {kindStr k} {hexOfString enc})", m)
+    if k.byContent || anon then (s!"(l - {kindStr k} {hexOfString enc})", m)
     else match m.lookup id with
       | some n => (s!"(= {n})", m)
       | none => (s!"(l {m.length} {kindStr k} {hexOfString enc})", (id, m.length) :: m)
   | .sens id v =>
-    match m.lookup id with
+    match (if anon then none else m.lookup id) with
     | some n => (s!"(= {n})", m)
     | none =>
-      let n := m.length
-      let (s, m1) := valStr ((id, n) :: m) v
-      (s!"(sn {n} {s})", m1)
+      let (s, m1) := valStr anon (if anon then m else (id, m.length) :: m) v
+      (s!"(sn {if anon then "-" else toString m.length} {s})", m1)
   | .arr id vs =>
-    match m.lookup id with
+    match (if anon then none else m.lookup id) with
     | some n => (s!"(= {n})", m)
     | none =>
-      let n := m.length
       let (s, m1) := vs.foldl (fun (acc : String × List (Nat × Nat)) v =>
-        let (t, m') := valStr acc.2 v; (acc.1 ++ " " ++ t, m')) ("", (id, n) :: m)
-      (s!"(a {n}{s})", m1)
+        let (t, m') := valStr anon acc.2 v; (acc.1 ++ " " ++ t, m')) ("", if anon then m else (id, m.length) :: m)
+      (s!"(a {if anon then "-" else toString m.length}{s})", m1)
   | .hash id es =>
-    match m.lookup id with
+    match (if anon then none else m.lookup id) with
     | some n => (s!"(= {n})", m)
     | none =>
-      let n := m.length
       let (s, m1) := es.foldl (fun (acc : String × List (Nat × Nat)) (kv : V × V) =>
-        let (t1, m') := valStr acc.2 kv.1
-        let (t2, m'') := valStr m' kv.2
-        (acc.1 ++ " (" ++ t1 ++ " " ++ t2 ++ ")", m'')) ("", (id, n) :: m)
-      (s!"(h {n}{s})", m1)
+        let (t1, m') := valStr anon acc.2 kv.1
+        let (t2, m'') := valStr anon m' kv.2
+        (acc.1 ++ " (" ++ t1 ++ " " ++ t2 ++ ")", m'')) ("", if anon then m else (id, m.length) :: m)
+      (s!"(h {if anon then "-" else toString m.length}{s})", m1)
   | .obj id tn _ as =>
-    match m.lookup id with
+    let isType := tn == "Pcore::ObjectType"     -- a type: printed without identity, like every type
+    match (if anon || isType then none else m.lookup id) with
     | some n => (s!"(= {n})", m)
     | none =>
-      let n := m.length
       let (s, m1) := as.foldl (fun (acc : String × List (Nat × Nat)) (kv : String × V) =>
-        let (t, m') := valStr acc.2 kv.2
-        (acc.1 ++ " (" ++ hexOfString kv.1 ++ " " ++ t ++ ")", m')) ("", (id, n) :: m)
-      (s!"(o {n} {hexOfString tn}{s})", m1)
+        let (t, m') := valStr (anon || isType) acc.2 kv.2
+        (acc.1 ++ " (" ++ hexOfString kv.1 ++ " " ++ t ++ ")", m')) ("", if anon || isType then m else (id, m.length) :: m)
+      (s!"(o {if anon || isType then "-" else toString m.length} {hexOfString tn}{s})", m1)
 
 def exec : List Sexp → String
+  | [.atom "span", src] =>
+    match src.str? with
+    | none => "bad-op"
+    | some s =>
+      match parseSpan s with
+      | some ns => hexOfString (printSpan ns)
+      | none => "err"
   | [.atom "ser", o, c, v] =>
     match optsOf o, capsOf c, parseV { defined := [], opened := [] } v with
     | some opts, some caps, some (val, _) =>
       if !val.dispOk (mkCfg opts caps) then "unmodelled"
       else if !sharedB (mkCfg opts caps) val then "incoherent-sharing"     -- hypothesis `Shared` of the theorems
       else
-        let ev := serialize opts caps val
+        -- the emit discipline is the one regenerated from serializer.go (fact family serarms)
+        let ev := serializeE (emitOf Pcore.Generated.serArms) opts caps val
         let back := match deserialize ev with
-          | .ok r => (valStr [] r).1
+          | .ok r => (valStr false [] r).1
           | .error _ => "err"
         evStr ev ++ " | " ++ back
     | _, _, _ => "bad-op"
